@@ -310,6 +310,76 @@ def bookkeeping(ck, prog, inv, ex):
     return n
 
 
+def enum_level(ck, prog, inv, ex):
+    """(c) the per-expansion UpdateMask enum: for every object kind, size() equals the number of bytes write_into_vec
+    emits, from states with an arbitrary dirty mask over a fixed header"""
+    from ..inventory import strip_turbofish
+    n = 0
+    for e in EXPS:
+        sz = wr = None
+        for r in prog.roots:
+            nm = strip_turbofish(r['name'])
+            if nm.endswith('::%s::UpdateMask::size' % e) or ('::%s::' % e in nm and nm.endswith('UpdateMask::size')):
+                sz = r
+            if '::%s::' % e in nm and nm.endswith('UpdateMask::write_into_vec'):
+                wr = r
+        if not (sz and wr):
+            ck.inconclusive.append('%s: UpdateMask::size / write_into_vec roots not found' % e)
+            continue
+        ety = prog.tk(prog.arg_types(sz['key'])[0])['Ref'][1]
+        adt = prog.adt(ety)
+        for vi, var in enumerate(adt['variants']):
+            inner_ty = var['fields'][0]['ty']
+            for keys in ([2], [0, 1, 2, 40]):
+                nblocks = max(keys) // 32 + 1
+                hw = [0] * nblocks
+                for k in keys:
+                    hw[k // 32] |= 1 << (k % 32)
+                header = [BV(x, 32) for x in hw]
+                dirty = [z3.BitVec('d%d' % i, 32) for i in range(nblocks)]
+                vals = {k: (z3.BitVec('v%d' % k, 32), 16) for k in keys}
+                holder = {}
+
+                def mk():
+                    st, _ = mk_state(prog, inner_ty, header_words=list(header), values=dict(vals), dirty=list(dirty))
+                    v = VecV([])
+                    holder['v'] = v
+                    return [Ref(Cell(EnumV(vi, [st]))), Ref(Cell(v))]
+                ex.set_assumptions([])
+                try:
+                    paths = ex.explore_guided(wr['key'], mk, on_path=lambda P: P.env.__setitem__('out', holder['v']))
+                except Unsupported as x:
+                    ck.inconclusive.append('%s::UpdateMask::%s write_into_vec: %s' % (e, var['name'], str(x)[:150]))
+                    continue
+                for P in paths:
+                    if P.status == 'infeasible':
+                        continue
+                    n += 1
+                    if P.status != 'ret':
+                        ck.inconclusive.append('%s::UpdateMask::%s write_into_vec: %s %s' % (e, var['name'], P.status, P.detail[:100]))
+                        continue
+                    nout = len(P.env['out'].lst)
+
+                    def mk2():
+                        st, _ = mk_state(prog, inner_ty, header_words=list(header), values=dict(vals), dirty=list(dirty))
+                        return [Ref(Cell(EnumV(vi, [st])))]
+                    for S in ex.explore_guided(sz['key'], mk2, pc0=P.pc):
+                        if S.status == 'infeasible':
+                            continue
+                        if S.status != 'ret':
+                            ck.inconclusive.append('%s::UpdateMask::%s size: %s %s' % (e, var['name'], S.status, S.detail[:100]))
+                            continue
+                        s2 = z3.Solver()
+                        s2.add(*S.pc)
+                        s2.add(S.result != BV(nout, S.result.size()))
+                        if s2.check() == z3.sat:
+                            m = s2.model()
+                            dv = [m.eval(d, model_completion=True).as_long() for d in dirty]
+                            ck.violation('%s::UpdateMask::size/%s' % (e, var['name']), '%s::UpdateMask::%s: size() = %s but write_into_vec emits %d bytes (header %s, dirty mask %s)' % (
+                                e, var['name'], m.eval(S.result, model_completion=True), nout, [hex(x) for x in hw], [hex(x) for x in dv]), {'exp': e, 'kind': var['name'], 'header': hw, 'dirty': dv})
+    return n
+
+
 def run(tier, only=None):
     ck = Check(PROP, tier, 'model_checking')
     tables = field_tables()
@@ -318,7 +388,9 @@ def run(tier, only=None):
             ck.inconclusive.append('field table for %s not found in update-mask.md' % e)
     dep_roots = [{'crate': 'wow_world_messages', 'pats': ['*::Update*::set_*', '*::Update*Builder::new', '*::update_mask_common::inners::*'], 'targs': []},
                  {'crate': 'wow_world_messages', 'pats': ['*::update_mask_common::inners::write_into_vec'], 'targs': [0]},
-                 {'crate': 'wow_world_messages', 'pats': ['*::update_mask_common::inners::read_inner'], 'targs': [1]}]
+                 {'crate': 'wow_world_messages', 'pats': ['*::update_mask_common::inners::read_inner'], 'targs': [1]},
+                 {'crate': 'wow_world_messages', 'pats': ['*::UpdateMask::size'], 'targs': []},
+                 {'crate': 'wow_world_messages', 'pats': ['*::UpdateMask::write_into_vec'], 'targs': [0]}]
     getters = {'crate': 'wow_world_messages', 'pats': ['*::UpdateItem::*', '*::UpdateContainer::*', '*::UpdateUnit::*', '*::UpdatePlayer::*', '*::UpdateGameObject::*', '*::UpdateDynamicObject::*', '*::UpdateCorpse::*'], 'targs': []}
     out = mirdump.dump('update_mask', ['wow_world_messages', 'wow_world_base'], 'pub fn __templates(a: &mut Vec<u8>, b: &mut &[u8]) {}\n', dep_roots + [getters])
     prog = Prog(out)
@@ -350,6 +422,10 @@ def run(tier, only=None):
     ex = Exec(prog)
     ex.max_paths = 80
     nb = bookkeeping(ck, prog, inv, ex)
+    try:
+        nb += enum_level(ck, prog, inv, ex)
+    except Unsupported as x:
+        ck.inconclusive.append('UpdateMask enum level: %s' % str(x)[:200])
     ck.assume('field table: wowm_language/src/types/update-mask.md (per version section); accessor name set_<field name lower-cased>; width GUID=2 words, INT/FLOAT/BYTES/TWO_SHORT=1 word')
     ck.assume('accessors not checked individually (no table row of that name, or composite/indexed setters such as visible items, skill info, inventory slots): %d' % cnt['skip'])
     ck.assume('(b) bounded states: <= 3 blocks, representative key sets {2}, {0,1,2}, {2,31,32}, {2,63,64,65}, {0,2,33,95}; dirty words and values symbolic; header words tied to the key set by the representation invariant')
